@@ -51,6 +51,10 @@ def check_C02(run):
     replay_validate(run, a, ["conn"], "ConnTrace", conn_trace_cfg(), "C02 client->service: streams of calls cut into every composition of writes (bodies 0 B .. 70 KiB)", nontrivial=nt)
     replay_validate(run, b, ["client"], "ClientTrace", CL_TRACE_CFG, "C02 service->client: reply streams cut into every composition of writes",
                     nontrivial=lambda c: any('"ev":"SW"' in l for l in c), shards=16)
+    # pipelining: further Sends between the receive calls must not disturb what has been received (many replies in one segment)
+    k3 = run.k3 if thorough else sample(run, run.k3, 400)
+    replay_validate(run, k3, ["client"], "ClientTrace", CL_TRACE_CFG, "C02 service->client: pipelined requests while replies are outstanding, every composition of the replies into writes",
+                    nontrivial=lambda c: any('"ev":"SA"' in l for l in c), shards=16)
     # (b) shape of every emitted message, for adversarial values, both directions, through the recording proxy
     sc = e2e_scen(run)
     for r in range(4 if thorough else 1):
@@ -60,7 +64,7 @@ def check_C02(run):
     bigs = run.rng.sample(sc, 16)
     replay_validate(run, bigs, ["e2e", "-big"], "E2ETrace", E2E_TRACE, "C02 frame shape with multi-MiB values", nontrivial=lambda c: True, shards=8)
     run.write_evidence("model_checking",
-        "(a) scenarios = families F2/F3 of ConnScen.tla (all compositions of up to 6 symbols into writes; frame bodies padded to 0 B .. 70 KiB incl. sizes around the 4 KiB bufio buffer) and K2 of ClientScen.tla, for the two directions; (b) every frame crossing a recording proxy between a real Connection and a real Service is logged with independent scalars valid_json / is_object / nul_count / nul_at_end, which the trace specification requires at every frame event, for generated adversarial values (NUL, quotes, control, non-BMP, deep nesting, multi-MiB); non-trivial = at least one write/frame event",
+        "(a) scenarios = families F2/F3 of ConnScen.tla (all compositions of up to 6 symbols into writes; frame bodies padded to 0 B .. 70 KiB incl. sizes around the 4 KiB bufio buffer) and K2 / K3 (pipelined Sends between the receive calls) of ClientScen.tla, for the two directions; (b) every frame crossing a recording proxy between a real Connection and a real Service is logged with independent scalars valid_json / is_object / nul_count / nul_at_end, which the trace specification requires at every frame event, for generated adversarial values (NUL, quotes, control, non-BMP, deep nesting, multi-MiB); non-trivial = at least one write/frame event",
         exhaustive=thorough,
         assumptions=CONN_ASSUME + ["byte-level JSON validity is judged by encoding/json's validator inside the recorder, not by TLC"])
 
